@@ -149,7 +149,7 @@ ActClass(a) ==          \* m = "x": no sub-class
 \* Defects of the pinned tree transcribed below; add the name here when the corresponding fix has landed, so that the Impl
 \* layer keeps describing the code:  "yearpad" (years < 1000 written zero-padded), "frac" (fractional seconds skipped before
 \* the offset is split off), "boolrev" (bool refused as a revision).
-ImplFixed == {}
+ImplFixed == {"yearpad", "frac", "boolrev"}
 Opaque(n) == << <<9, n>> >>
 \* CorePropertiesPart.default: title, last_modified_by, revision 1, modified = now
 ImplDefault(now) ==
